@@ -118,6 +118,23 @@ v('C14', 'fire', 'inertial_sensor.py', '                if actual != nominal:', 
 v('C14', 'silent', 'inertial_sensor.py', '                if actual != nominal:', '                if not actual == nominal:', 'same exact test, other spelling')
 v('C14', 'silent', 'inertial_sensor.py', '                if actual != nominal:', '                if actual - nominal != 0:', 'same exact test on the deviation')
 v('C07', 'fire', KA, '    S = HP @ H.T + R\n', '    S = HP @ H.T + R\n    S[np.diag_indices_from(S)] += 1e-10\n', 'seeded C07 round 4: absolute jitter on the innovation covariance')
+_LEV = ('        if self.imu_to_antenna_b is not None:\n            mat_nb = transform.mat_from_rph(pva[RPH_COLS])\n'
+        '            z += mat_nb @ self.imu_to_antenna_b\n')
+v('C13 C06', 'fire', 'measurements.py',
+  [_LEV + '        H = error_model.position_error_jacobian', '            R = R[:2, :2]\n        return z, H, R\n'],
+  ['        H = error_model.position_error_jacobian', '            R = R[:2, :2]\n' + _LEV + '        return z, H, R\n'],
+  'seeded C13 round 4: lever-arm term added after the 2-row reduction (ValueError without altitude)')
+v('C05', 'fire', 'error_model.py', '        mat_tp = Rotation.from_rotvec(x[self.PHI]).as_matrix()\n',
+  '        phi = x[self.PHI]\n        if phi @ phi > 1e-8:\n            mat_tp = Rotation.from_rotvec(phi).as_matrix()\n'
+  '        else:\n            mat_tp = np.eye(3)\n', 'seeded C05 round 4: attitude correction skipped below 1e-4 rad')
+v('C02 C09', 'fire', 'strapdown.py', '        if required_size > size:', "        if mode == 'integrate' and required_size > size:",
+  'seeded C02/C09 round 4: predict no longer grows the buffers it writes into')
+v('C10 C11', 'fire', 'filters.py', '        while measurement_times[measurement_time_index] < next_time:',
+  '        if measurement_times[measurement_time_index] < next_time:', 'seeded C10 round 4: drain loop reduced to one step')
+v('C04', 'fire', 'error_model.py', 'B_gyro[np.ix_(samples, self.DV, [0, 1, 2])] = util.mm_prod(V_skew, mat_nb)',
+  'B_gyro[np.ix_(samples, self.DV, [0, 1, 2])] = util.mm_prod(mat_nb, V_skew)', 'seeded C04 round 4: operands of the gyro input block exchanged')
+v('C19', 'fire', 'transform.py', 'result = np.empty_like(diff, dtype=float)', 'result = np.empty_like(diff)',
+  'seeded C19 round 4: result buffer inherits an integer dtype (reverts the F7 repair)')
 _VL_OLD = "    n = len(F)\n"
 _VL_NEW = "    n = len(F)\n    if np.linalg.norm(F, 1) * dt > 18:\n        Phi, Qd = compute_process_matrices(F, Q, 0.5 * dt)\n%s\n"
 v('C08', 'fire', KA, _VL_OLD, _VL_NEW % "        Phi = Phi @ Phi\n        return Phi, Phi @ Qd @ Phi.T + Qd", 'seeded C08 round 4: halved step re-composed with the squared transition')
